@@ -154,6 +154,9 @@ add("unsup", "block", "__asm__(\"nop\");", "{ volatile int vv%d; vv%d = 1; }", "
     "gi = ({ 1; });", "gi = gi ?: 2;")
 add("unsup", "unit", "#if 1\n#endif\n", "#ifdef A\n#endif\n", "#ifndef A\n#endif\n", "#if 0\n#elif 1\n#endif\n", "#include <stdio.h>\n", "#include \"x.h\"\n", "#error stop\n", "#define C(a, b) a ## b\nint C(x, y);\n",
     "#define D ##\n", "int x;\n#endif\n", "int x;\n#else\n")
+# adjacent string literals with contradicting prefixes, wherever the prefixed ones stand in the run (6.4.5p2)
+add("lang", "unit", "void *p = L\"ab\" \"cd\" u\"ef\";\n", "void *p = U\"x\" \"y\" \"z\" u8\"w\";\n", "void *p = \"a\" u\"b\" \"c\" U\"d\";\n", "unsigned short s[] = u\"a\" \"b\" \"c\" \"d\" L\"e\";\n",
+    "int n = sizeof(u8\"a\" \"b\" L\"c\");\n", "void f(void) { (void)(L\"a\" \"\" u\"b\"); }\n", "void *p = u\"a\" u\"b\" \"c\" U\"d\";\n", "void *p = U\"a\" \"b\" U\"c\" \"d\" u\"e\";\n")
 # ---- lexical / preprocessor (scan.c, pp.c) -----------------------------------------------------------------------
 add("lang", "unit", "int c = '\\q';\n", "char s[] = \"\\q\";\n", "char s[] = \"\\x\";\n", "int c = '\\xg';\n", "int c = 'a\n';\n", "char s[] = \"ab\ncd\";\n", "int c = 'a", "char s[] = \"abc", "int x; /* open comment",
     "char s[] = L\"a\" u\"b\";\n", "char s[] = \"\\400\";\n", "int c = '';\n", "#define\n", "#define 1 2\n", "#define F(x\n", "#define F(x,) x\n", "#define F(x x) x\n", "#define F(..., x) x\n", "#define F(x) #y\n",
